@@ -41,6 +41,12 @@ type simDevice struct {
 	// request log of the current step
 	log  []devReq
 	fuse *fuse
+	// history variable (only when trackHist is set; then part of the state): the "path=value" updates this device has
+	// accepted under the highest election id ever used towards it. It records what the controllers sent in the
+	// current term; a restart of the device does not forget it.
+	trackHist bool
+	histEl    uint64
+	hist      map[string]bool
 
 	lis *bufconn.Listener
 	srv *grpc.Server
@@ -53,6 +59,9 @@ type devReq struct {
 	Deletes  []string `json:"deletes,omitempty"`
 	Updates  []string `json:"updates,omitempty"` // path=value
 	Code     string   `json:"code"`
+	// history before this request (devices with trackHist): the election id of the newest term and what was accepted in it
+	SeenEl uint64   `json:"seenEl,omitempty"`
+	Seen   []string `json:"seen,omitempty"`
 }
 
 func newSimDevice(id string, f *fuse) *simDevice {
@@ -69,6 +78,11 @@ func (d *simDevice) dial(connID string) (*grpc.ClientConn, error) {
 		grpc.WithContextDialer(func(ctx context.Context, _ string) (net.Conn, error) { return d.lis.DialContext(ctx) }),
 		grpc.WithTransportCredentials(insecure.NewCredentials()),
 		grpc.WithUnaryInterceptor(func(ctx context.Context, method string, req, reply interface{}, cc *grpc.ClientConn, invoker grpc.UnaryInvoker, opts ...grpc.CallOption) error {
+			// split steps park a device Set here, on the client side, before it is sent: if the connection goes
+			// away while the call is parked the request never reaches the device
+			if strings.HasSuffix(method, "/Set") {
+				d.fuse.Gate("device")
+			}
 			return invoker(metadata.AppendToOutgoingContext(ctx, "x-conn-id", connID), method, req, reply, cc, opts...)
 		}))
 }
@@ -87,10 +101,12 @@ func (d *simDevice) Get(ctx context.Context, r *gnmi.GetRequest) (*gnmi.GetRespo
 func devCovers(t, p string) bool { return c18Covers(c18Split(t), c18Split(p)) }
 
 func (d *simDevice) Set(ctx context.Context, r *gnmi.SetRequest) (*gnmi.SetResponse, error) {
-	d.fuse.Gate("device")
 	d.mu.Lock()
 	defer d.mu.Unlock()
 	req := devReq{}
+	if d.trackHist {
+		req.SeenEl, req.Seen = d.histEl, d.histList()
+	}
 	if md, ok := metadata.FromIncomingContext(ctx); ok {
 		if v := md.Get("x-conn-id"); len(v) > 0 {
 			req.Conn = v[0]
@@ -144,6 +160,19 @@ func (d *simDevice) Set(ctx context.Context, r *gnmi.SetRequest) (*gnmi.SetRespo
 		return finish(codes.PermissionDenied, fmt.Sprintf("election id %d is lower than %d", req.Election, d.maxElection))
 	}
 	d.maxElection = req.Election
+	if d.trackHist {
+		if req.Election > d.histEl {
+			d.histEl, d.hist = req.Election, map[string]bool{}
+		}
+		if req.Election == d.histEl {
+			if d.hist == nil {
+				d.hist = map[string]bool{}
+			}
+			for _, u := range req.Updates {
+				d.hist[u] = true
+			}
+		}
+	}
 	for _, t := range req.Deletes {
 		for p := range d.cfg {
 			if devCovers(t, p) {
@@ -177,12 +206,31 @@ type simDevSnap struct {
 	cfg         map[string]string
 	maxElection uint64
 	script      []codes.Code
+	histEl      uint64
+	hist        []string
+}
+
+// histList returns the history as a sorted list (lock held).
+func (d *simDevice) histList() []string {
+	l := make([]string, 0, len(d.hist))
+	for u := range d.hist {
+		l = append(l, u)
+	}
+	sort.Strings(l)
+	return l
+}
+
+// History returns the newest term the device was written in and what it accepted in that term.
+func (d *simDevice) History() (uint64, []string) {
+	d.mu.Lock()
+	defer d.mu.Unlock()
+	return d.histEl, d.histList()
 }
 
 func (d *simDevice) Snapshot() *simDevSnap {
 	d.mu.Lock()
 	defer d.mu.Unlock()
-	s := &simDevSnap{cfg: map[string]string{}, maxElection: d.maxElection, script: append([]codes.Code{}, d.script...)}
+	s := &simDevSnap{cfg: map[string]string{}, maxElection: d.maxElection, script: append([]codes.Code{}, d.script...), histEl: d.histEl, hist: d.histList()}
 	for k, v := range d.cfg {
 		s.cfg[k] = v
 	}
@@ -199,6 +247,10 @@ func (d *simDevice) Restore(s *simDevSnap) {
 	d.maxElection = s.maxElection
 	d.script = append([]codes.Code{}, s.script...)
 	d.log = nil
+	d.histEl, d.hist = s.histEl, map[string]bool{}
+	for _, u := range s.hist {
+		d.hist[u] = true
+	}
 }
 
 func (d *simDevice) Canon() string {
@@ -215,6 +267,9 @@ func (d *simDevice) Canon() string {
 		fmt.Fprintf(&b, "%s=%s;", k, d.cfg[k])
 	}
 	b.WriteString("}")
+	if d.trackHist {
+		fmt.Fprintf(&b, " sent-in-term-%d=%v", d.histEl, d.histList())
+	}
 	return b.String()
 }
 
